@@ -289,6 +289,67 @@ func (r *SexpArray) Type() *RegisteredType {
 	return r.Typ
 }
 
+// selfContaining reports whether x holds itself somewhere inside, which an
+// array or hash can be made to do ((aset a 0 a), (hset h k: h)). The walks
+// that build a text, code or a Go value out of a structure cannot finish on
+// such a value and would exhaust the Go stack, which no recover() survives.
+func selfContaining(x Sexp) bool {
+	onPath := make(map[Sexp]bool)
+	done := make(map[Sexp]bool)
+	var walk func(x Sexp) bool
+	walk = func(x Sexp) bool {
+		switch v := x.(type) {
+		case *SexpArray:
+			if onPath[v] {
+				return true
+			}
+			if done[v] {
+				return false
+			}
+			onPath[v] = true
+			for _, e := range v.Val {
+				if walk(e) {
+					return true
+				}
+			}
+			delete(onPath, v)
+			done[v] = true
+		case *SexpHash:
+			if onPath[v] {
+				return true
+			}
+			if done[v] {
+				return false
+			}
+			onPath[v] = true
+			for _, bucket := range v.Map {
+				for _, pair := range bucket {
+					if walk(pair.Head) || walk(pair.Tail) {
+						return true
+					}
+				}
+			}
+			delete(onPath, v)
+			done[v] = true
+		case *SexpPair:
+			for p := v; p != nil; {
+				if walk(p.Head) {
+					return true
+				}
+				next, isPair := p.Tail.(*SexpPair)
+				if !isPair {
+					return walk(p.Tail)
+				}
+				p = next
+			}
+		}
+		return false
+	}
+	return walk(x)
+}
+
+var errSelfContaining = fmt.Errorf("the value contains itself")
+
 func (arr *SexpArray) SexpString(ps *PrintState) string {
 	// an array can be made to contain itself ((aset a 0 a)): the arrays on
 	// the path being printed are remembered, and one met again is elided.
